@@ -168,12 +168,15 @@ Fixpoint diag_from (i : nat) (cs : list case) : list (nat * nat) :=
 Definition diag := diag_from 0.
 
 (* ---------- helpers for the generated files ---------- *)
-Fixpoint lookup_bits (l : list (list bool)) (b : list bool) : bool :=
-  match l with [] => false | x :: l' => if list_eqb Bool.eqb x b then true else lookup_bits l' b end.
-(* a scenario descriptor: [invalid] lists the action sets (among those reached) whose fresh instance is invalid *)
-Definition mkdesc (acts : list (Z * string)) (pus : list Z) (asis : list (string * Q)) (invalid : list (list bool)) : desc CV :=
+Fixpoint lookup_bits (l : list (list bool * string)) (b : list bool) : option string :=
+  match l with [] => None | (x, tok) :: l' => if list_eqb Bool.eqb x b then Some tok else lookup_bits l' b end.
+(* a scenario descriptor: [invalid] lists the action sets (among those evaluated on fresh instances in this run) that
+   are invalid, each with the token standing for its validation error text *)
+Definition mkdesc (acts : list (Z * string)) (pus : list Z) (asis : list (string * Q)) (invalid : list (list bool * string)) : desc CV :=
   {| d_actions := acts; d_pus := pus; d_asis := asis;
-     d_valid := fun b => negb (lookup_bits invalid b); d_errs := fun _ => "E"; d_eval := fun b => b |}.
+     d_valid := fun b => match lookup_bits invalid b with None => true | Some _ => false end;
+     d_errs := fun b => match lookup_bits invalid b with None => "" | Some tok => tok end;
+     d_eval := fun b => b |}.
 
 (* float -> planning unit id conversion, checked against the running binary *)
 Definition conv_ok (f : fval) (id : Z) : bool := Z.eqb (pu_of_float f) id.
